@@ -1,6 +1,6 @@
 SPEC = {
     "runners": [{
-        "kind": "coqcases", "harness": "c12", "corr": "Run/CorrC12.v (model of sliceOps vs /repo/sliceOps)",
+        "kind": "coqcases", "module": "CorrC12", "harness": "c12", "corr": "Run/CorrC12.v (model of sliceOps vs /repo/sliceOps)",
         "rule": "each case = one call of a sliceOps function on generated input, run on the real code at element types int, string and *T (which must agree) and compared in Coq with the model proved equal to the specification; distinct = by (function, arguments); non-trivial = list ops that actually move elements (i<j, non-empty v, something filtered, non-empty pop) and set ops with a duplicate inside an argument or >= 2 arguments.",
     }],
     "trusted": ["builtin copy/append/make and map-as-set are modelled by contract (go_copy, mem)",
